@@ -46,6 +46,11 @@ def specs(tier):
             near['A'] = {1: [('a', pw), ('b', 1 - pw)]}
             near['C'] = {1: [('L', pw), ('U', 1 - pw)]}
             cands.append((near, [('A1', b), ('D1', 1 - b)]))
+    # equally probable masks in one group where a later mask has L at a position at which an earlier one has U
+    tied_masks = dict(t0)
+    tied_masks['A'] = {2: [('ab', .6), ('cd', .4)], 3: [('abc', 1.0)]}
+    tied_masks['C'] = {2: [('LL', .4), ('UL', .3), ('LU', .3)], 3: [('LLL', .25), ('ULL', .25), ('LUL', .25), ('LLU', .25)]}
+    cands.append((tied_masks, [('A2', .5), ('A3', .3), ('D1', .2)]))
     if tier == 'thorough':
         cands += [(big, [('A1', .3), ('A3', .3), ('D1', .2), ('D2', .1), ('K4', .1)]), (t1, [('A1', .5), ('A2', .25), ('D1', .125), ('O1', .125)])]
     out = []
